@@ -73,6 +73,8 @@ def build(debug=False):
         olds = sorted((d for d in os.listdir(ROOT) if os.path.isdir(os.path.join(ROOT, d))),
                       key=lambda d: os.path.getmtime(os.path.join(ROOT, d)))
         for d in olds[:-(KEEP - 1)] if len(olds) >= KEEP else []:
+            if time.time() - os.path.getmtime(os.path.join(ROOT, d)) < 2 * 3600:
+                continue            # possibly in use by a check of another tree running side by side
             shutil.rmtree(os.path.join(ROOT, d), ignore_errors=True)
         os.makedirs(dest)
         src_py = os.path.join(REPO, "src/python/bezier")
